@@ -440,7 +440,7 @@ func (c *VCtx) rangeWrite(st *State, es Sort, arr, dstOff *Term, src *Term, srcO
 	h := c.heap(st, hn, hs)
 	na := c.fresh("A", ArrSort(SInt, es))
 	oldA := Select(h, arr)
-	c.fact(T(SBool, fmt.Sprintf("(forall ((j Int)) (! (= (select %s j) (ite (and (<= %s j) (< j (+ %s %s))) (select %s (+ %s (- j %s))) (select %s j))) :pattern ((select %s j))))",
+	c.defFact(na, T(SBool, fmt.Sprintf("(forall ((j Int)) (! (= (select %s j) (ite (and (<= %s j) (< j (+ %s %s))) (select %s (+ %s (- j %s))) (select %s j))) :pattern ((select %s j))))",
 		na.S, dstOff.S, dstOff.S, n.S, src.S, srcOff.S, dstOff.S, oldA.S, na.S)))
 	c.setHeap(st, hn, Store(h, arr, na))
 }
@@ -462,15 +462,15 @@ func (c *VCtx) appendOp(fr *Frame, st *State, cc *ssa.CallCommon) Val {
 	}
 	newLen := c.name("alen", Add(SlLen(s), n))
 	grow := c.fresh("grow", SBool)
-	c.fact(Eq(grow, Gt(newLen, SlCap(s))))
+	c.defFact(grow, Eq(grow, Gt(newLen, SlCap(s))))
 	// grown: fresh array holding the old contents
 	h := c.heap(st, hn, hs)
 	farr := c.freshRef(st, "arr")
 	fcap := c.fresh("cap", SInt)
-	c.fact(And(Ge(fcap, newLen), Lt(fcap, IntLitS(pow2str(62)))))
+	c.defFact(fcap, And(Ge(fcap, newLen), Lt(fcap, IntLitS(pow2str(62)))))
 	fcont := c.fresh("A", ArrSort(SInt, es))
 	oldA := Select(h, SlArr(s))
-	c.fact(T(SBool, fmt.Sprintf("(forall ((j Int)) (! (=> (and (<= 0 j) (< j (s-len %s))) (= (select %s j) (select %s (+ (s-off %s) j)))) :pattern ((select %s j))))", s.S, fcont.S, oldA.S, s.S, fcont.S)))
+	c.defFact(fcont, T(SBool, fmt.Sprintf("(forall ((j Int)) (! (=> (and (<= 0 j) (< j (s-len %s))) (= (select %s j) (select %s (+ (s-off %s) j)))) :pattern ((select %s j))))", s.S, fcont.S, oldA.S, s.S, fcont.S)))
 	h = c.heap(st, hn, hs)
 	c.setHeap(st, hn, Ite(grow, Store(h, farr, fcont), h))
 	res := c.name("app", Ite(grow, MkSlice(farr, IntLit(0), newLen, fcap, cc.Args[0].Type()), MkSlice(SlArr(s), SlOff(s), newLen, SlCap(s), cc.Args[0].Type())))
